@@ -101,7 +101,7 @@ def run(prog, rep):
     f = prog.lib_fn("evaluation::eval_context::EvalContext::extend_context_with_wild_cards")
     if f is not None:
         import effects
-        s = terms.Engine(prog, inline=True, hooks=E.Hooks(["evaluation::eval_context::"])).summary(f)
+        s = terms.Engine(prog, inline=True, hooks=E.eval_hooks()).summary(f)
         pn = f.param_names()
         srcs = [("param", x) for x in pn[1:]]
 
